@@ -169,6 +169,19 @@ func compare(c *enum.Ctx, name string, v any, want *cell.Cell) {
 	}
 	if !cell.StructEqual(got, want) || got.ReprHash() != want.ReprHash() {
 		c.Fail("bits-differ:"+name, "%s encodes to %s, schema prescribes %s", name, got.Describe(), want.Describe())
+		return
+	}
+	// encoding does not consume or change the value: the same value encodes to the same bits again
+	enc2 := tb.NewCell()
+	if c.Try("panic:Marshal-again:"+name, func() { err = tlb.Marshal(enc2, v) }) {
+		return
+	}
+	if err != nil {
+		c.Fail("encode-again-error:"+name, "a second Marshal of the same %s value failed: %v", name, err)
+		return
+	}
+	if got2, err := conv.FromTongo(enc2); err != nil || got2.ReprHash() != want.ReprHash() {
+		c.Fail("bits-differ-second-encoding:"+name, "the second encoding of the same %s value differs from the first (%v)", name, err)
 	}
 }
 
@@ -278,6 +291,49 @@ func harnesses(r *fw.Run) []fw.HarnessSpec {
 		want := tlbx.RefBits(k, x)
 		rc := cell.MustNew(want.Bytes(), len(want), nil, false)
 		compare(c, k.Entry.Name, v.Interface(), rc)
+	})
+
+	// byte arrays of any length are bit strings of 8*N bits for the reflection codec (the generated BitsN types are such
+	// arrays; a user schema may declare wider ones): every length 1..127 alone and between two other fields
+	add("byte-arrays-every-length", 0, func(c *enum.Ctx) {
+		n := 1 + c.ChooseFree(127)
+		between := c.ChooseFree(2) == 1
+		c.Case([]byte(fmt.Sprintf("bytes/%d/%v", n, between)), true)
+		c.Label("[%d]byte, between two fields: %v", n, between)
+		data := bits.Pattern(seed+n, 8*n).Bytes()
+		arrT := reflect.ArrayOf(n, reflect.TypeOf(byte(0)))
+		arr := reflect.New(arrT).Elem()
+		for i := 0; i < n; i++ {
+			arr.Index(i).SetUint(uint64(data[i]))
+		}
+		b := &te.B{}
+		var v any
+		if between {
+			st := reflect.StructOf([]reflect.StructField{
+				{Name: "Head", Type: reflect.TypeOf(tlb.Uint3(0))},
+				{Name: "Body", Type: arrT},
+				{Name: "Tail", Type: reflect.TypeOf(false)},
+			})
+			sv := reflect.New(st).Elem()
+			sv.Field(0).SetUint(5)
+			sv.Field(1).Set(arr)
+			sv.Field(2).SetBool(true)
+			if 3+8*n+1 > 1023 {
+				c.Skip()
+				return
+			}
+			b.Uint(5, 3).Raw(bits.FromBytes(data, 8*n)).Bit(true)
+			v = sv.Interface()
+		} else {
+			b.Raw(bits.FromBytes(data, 8*n))
+			v = arr.Interface()
+		}
+		w, err := b.Cell()
+		if err != nil {
+			c.Skip()
+			return
+		}
+		compare(c, fmt.Sprintf("[%d]byte", n), v, w)
 	})
 
 	add("combinators-and-tags", 2, func(c *enum.Ctx) {
